@@ -1,10 +1,12 @@
 mod chain;
+mod conc;
 mod config;
 mod crypto;
 mod monitors;
 mod report;
 mod rng;
 mod simnode;
+mod sync;
 mod slots;
 mod tower;
 mod towerhist;
@@ -45,6 +47,10 @@ fn main() {
         "crypto" => {
             crypto::run(seed, thorough, &mut rep);
             rep.finish("TESTS (not proofs) of the laws assumed of the primitives, on the real functions: random well-formed transactions of varied structure/size and random ids: round trip, determinism and recipe (recomputed with the AEAD crate), canonical serialisation, other id, bit flips / truncations / extensions / deletions of ciphertexts, all pairs of distinct ids over a 64-element set, sign/recover/verify with altered messages, altered/truncated/garbage signatures, other keys", false);
+        }
+        "conc" => {
+            conc::run(seed, thorough, &mut rep);
+            rep.finish("schedule exploration of the real tower under the deterministic scheduler (hook H5): for each scenario (set-up + 2..3 concurrent operations) every schedule with at most 1 (quick) / 2 (thorough) pre-emptions at lock acquisitions; outcome compared with the outcomes of the sequential orders; circular waits, aborts, lock-order edges recorded. SEARCH, not proof.", false);
         }
         "slots" => {
             slots::run(seed, thorough, &mut rep);
